@@ -166,8 +166,9 @@ def main(ctx):
                   "tierB_shapes": tierb_shapes, "tierB_preemption_bound": "1" if ctx.quick else "2 (1 for > 4 batches)",
                   "agents": "all scripted action sequences over {0,1} (length <= 3 quick / 4 thorough) + eps-greedy eps {0,.5} seeds {S,S+1}",
                   "loss_scripts": list(rh.LOSS_SCRIPTS), "sampler_sets": ["with_halton", "without_halton"], "cells": len(cells)}
-    ctx.rule = ("stateless DFS over schedules of the real two-thread exchange; evaluations = complete executions, each checked by the reference monitor; "
-                "non-trivial = execution with >= 1 preemption; states = distinct canonical snapshots (reporting only, never used to prune)")
+    ctx.rule = ("stateless DFS over schedules of the real two-thread exchange: Tier A all interleavings modulo commutation of independent steps (sleep sets; executions "
+                "cut as equivalent are not counted), unreduced bounded search and line-granularity search with a preemption bound; evaluations = complete executions, each "
+                "checked by the reference monitor; non-trivial = execution with >= 1 preemption; states = distinct canonical snapshots (reporting only, never used to prune)")
     ctx.assumptions = ["scheduling points: queue ops, thread start/join/exit, _stopped and _curr_best_loss accesses (Tier A); every line in black_it/schedulers (Tier B)",
                        "sleep-set reduction: operations on different queues, reads of a shared attribute and accesses to different attributes commute; everything a thread does between two scheduling points touches only thread-local state or state behind one of the points (Tier B, which assumes nothing of the kind, explores with a preemption bound)",
                        "bytecode-level interleavings inside one source line are not explored"]
